@@ -393,7 +393,9 @@ fn special_trial(i: u64, three: bool) -> Option<(Pos, u8, bool)> {
     let mut x = i.wrapping_mul(0x9E3779B97F4A7C15) ^ 0x5eed_c06;
     let mut r = |n: usize| (crate::runner::splitmix(&mut x) % n as u64) as usize;
     // castling mates are common, the other two kinds are rare: 5 / 2 / 1 out of 8 trials
-    let kind = if three { [0u8, 1, 1, 1][(i % 4) as usize] } else { [0u8, 0, 0, 0, 0, 1, 1, 2][(i % 8) as usize] };
+    // kind 3: the side to move is in check and every key move is a move of a piece other than the king
+    // (capture of the checker or interposition that mates)
+    let kind = if three { [0u8, 1, 1, 1, 3, 3][(i % 6) as usize] } else { [0u8, 0, 0, 0, 0, 1, 1, 2, 3, 3, 3, 3][(i % 12) as usize] };
     let mut p = Pos::empty(Col::W);
     // the defender's king on the rim (mates in one are found there)
     let rim: Vec<usize> = (0..64).filter(|s| s / 8 == 0 || s / 8 == 7 || s % 8 == 0 || s % 8 == 7).collect();
@@ -430,6 +432,18 @@ fn special_trial(i: u64, three: bool) -> Option<(Pos, u8, bool)> {
             }
             p.b[48 + f] = Some((Col::W, Kind::P));
         }
+        3 => {
+            // a black piece aimed at the white king, and often black pawns next to that king (also on
+            // the squares diagonally behind it, from where they do not attack it)
+            let k = [Kind::Q, Kind::R, Kind::B, Kind::N][r(4)];
+            put(&mut p, r(64), Col::B, k);
+            for _ in 0..r(3) {
+                let d = crate::oracle::rules::KING_D[r(8)];
+                if let Some(sq) = crate::oracle::rules::off(wk, d) {
+                    put(&mut p, sq, Col::B, Kind::P);
+                }
+            }
+        }
         _ => {
             let rook = if r(2) == 0 { 7 } else { 0 };
             if p.b[rook].is_some() {
@@ -460,6 +474,9 @@ fn special_trial(i: u64, three: bool) -> Option<(Pos, u8, bool)> {
     if !p.is_legal_position() {
         return None;
     }
+    if kind == 3 && !p.in_check(Col::W) {
+        return None;
+    }
     let legal = p.legal();
     let mating: Vec<&crate::oracle::rules::Mv> = legal.iter().filter(|(_, n)| !n.has_legal_move() && n.in_check(n.stm)).map(|x| &x.0).collect();
     if three {
@@ -485,6 +502,7 @@ fn is_special(m: &crate::oracle::rules::Mv, kind: u8) -> bool {
     match kind {
         0 => m.ep,
         1 => matches!(m.promo, Some(Kind::N) | Some(Kind::B) | Some(Kind::R)),
+        3 => m.kind != Kind::K,
         _ => m.castle.is_some(),
     }
 }
@@ -589,7 +607,7 @@ impl DynProp for SpecialKeyMates3 {
     }
     fn run(&self, ctx: &Ctx, cases: u64) {
         let pool = special3_pool(ctx);
-        ctx.extra("special3_pool", json!({"trials": 2_400_000, "positions": pool.len(), "en_passant": pool.iter().filter(|x| x.1 == 0).count(), "under_promotion": pool.iter().filter(|x| x.1 == 1).count()}));
+        ctx.extra("special3_pool", json!({"trials": 2_400_000, "positions": pool.len(), "en_passant": pool.iter().filter(|x| x.1 == 0).count(), "under_promotion": pool.iter().filter(|x| x.1 == 1).count(), "out_of_check_by_another_piece": pool.iter().filter(|x| x.1 == 3).count()}));
         let n = (pool.len() as u64).min(cases);
         // per position: (mirrored or not) x depth 3..5 x {1 worker, 2 scheduled workers}, plus one run
         // through the public entry point at depth 3 (it allocates the real 1 GiB memory)
@@ -605,7 +623,7 @@ impl DynProp for SpecialKeyMates3 {
             let (mirrored, depth, mode) = if v == 12 { (false, 3u8, 2u64) } else { (v >= 6, (v % 3) as u8 + 3, (v / 3) % 2) };
             let pos = if mirrored { p0.mirror() } else { p0.clone() };
             let seed = crate::runner::h64(&(i, ctx.seed, "s3"));
-            let kname = ["an en-passant capture", "an under-promotion", "castling"][*kind as usize];
+            let kname = ["an en-passant capture", "an under-promotion", "castling", "a non-king move out of check"][*kind as usize];
             let case = json!({"fen": pos.fen(), "depth": depth, "seed": seed, "mode": mode});
             let (last_eval, first, what) = if mode == 2 {
                 // the public entry point: the engine's own worker counts (one below iteration 3)
@@ -648,7 +666,7 @@ impl DynProp for SpecialKeyMates3 {
             } else {
                 loc.class(if kept == Some(true) { "special3:first_move_proved_to_keep_mate" } else { "special3:first_move_undecided" });
             }
-            loc.class(["special3:key_en_passant", "special3:key_under_promotion", "special3:key_castling"][*kind as usize]);
+            loc.class(["special3:key_en_passant", "special3:key_under_promotion", "special3:key_castling", "special3:key_out_of_check_by_another_piece"][*kind as usize]);
             loc.class(["special3:one_worker", "special3:two_workers_scheduled", "special3:public_entry_point"][mode as usize]);
             loc.nontrivial(&(pos.fen4(), depth, mode));
             if i % 53 == 0 {
@@ -696,11 +714,11 @@ impl DynProp for SpecialKeyMates {
     fn run(&self, ctx: &Ctx, cases: u64) {
         let pool = special_pool(ctx);
         let per_kind = |k: u8| pool.list.iter().filter(|x| x.1 == k).count();
-        ctx.extra("special_pool", json!({"trials": pool.trials, "en_passant": per_kind(0), "under_promotion": per_kind(1), "castling": per_kind(2),
+        ctx.extra("special_pool", json!({"trials": pool.trials, "en_passant": per_kind(0), "under_promotion": per_kind(1), "castling": per_kind(2), "out_of_check_by_another_piece": per_kind(3),
             "side_to_move_in_check": pool.list.iter().filter(|x| x.2).count()}));
         // take the kinds in turn so that the rare ones are not crowded out
         let mut order: Vec<usize> = vec![];
-        let by_kind: Vec<Vec<usize>> = (0..3u8).map(|k| pool.list.iter().enumerate().filter(|(_, x)| x.1 == k).map(|x| x.0).collect()).collect();
+        let by_kind: Vec<Vec<usize>> = (0..4u8).map(|k| pool.list.iter().enumerate().filter(|(_, x)| x.1 == k).map(|x| x.0).collect()).collect();
         let longest = by_kind.iter().map(|v| v.len()).max().unwrap_or(0);
         for j in 0..longest {
             for v in by_kind.iter() {
@@ -719,7 +737,7 @@ impl DynProp for SpecialKeyMates {
             let spec = SearchSpec { depth: Some(depth), seed, workers: 1, sched_seed: None, cancel_after: None };
             let (out, _) = search::run(&pos, &spec, search::new_artifact(seed ^ 7, GEOM), usize::MAX);
             loc.eval();
-            let kname = ["an en-passant capture", "an under-promotion", "castling"][*kind as usize];
+            let kname = ["an en-passant capture", "an under-promotion", "castling", "a non-king move out of check"][*kind as usize];
             let what = format!("search of '{}' (mate in 1 ply, only by {}; {:?})", pos.fen(), kname, spec);
             let case = json!({"fen": pos.fen(), "depth": depth, "seed": seed});
             if let Some(pm) = &out.panic {
@@ -737,7 +755,7 @@ impl DynProp for SpecialKeyMates {
             let mut s = Solver::new(300_000);
             let kept = if !succ.has_legal_move() && succ.in_check(succ.stm) { Some(true) } else { s.lost_within(&succ, 6) };
             loc.class(match kept { Some(true) => "special:first_move_proved_to_keep_mate", Some(false) => "special:first_move_not_mating_within_7_plies_undecided", None => "special:first_move_undecided" });
-            loc.class(["special:key_en_passant", "special:key_under_promotion", "special:key_castling"][*kind as usize]);
+            loc.class(["special:key_en_passant", "special:key_under_promotion", "special:key_castling", "special:key_out_of_check_by_another_piece"][*kind as usize]);
             if *in_check {
                 loc.class("special:side_to_move_in_check");
             }
@@ -921,7 +939,7 @@ pub fn plan(ctx: &Ctx) -> Plan {
                solver, then the same completeness rule; the first move is proved to keep the mate by bounded proof search \
                or counted as undecided - never refuted. Special keys (special_key_mates): 8 M seeded \
                constructions are filtered for positions with a mate in one ply in which every mating move is an en-passant \
-               capture, an under-promotion or castling (a few hundred; some with the side to move in check); each is searched \
+               capture, an under-promotion, castling, or - the side to move being in check - a move of another piece than the king (a few hundred; some with the side to move in check); each is searched \
                (also colour-mirrored) at depth 1-3 from fresh memory and must end with evaluation >= POS_INF. \
                Thorough only: exact tables for K + two white pieces v K \
                (KRRK, KQRK, KQNK; 33 M positions each, self-checked against the solver on 1500 samples each run) give \
